@@ -15,9 +15,10 @@ package pogreb
 // oldest first. sort.SliceStable itself (a stable sort by the comparator) is outside the contracts.
 //@ func (dl *datalog) segmentsBySequenceID() (segs []*segment) [C03,C05,C12]
 //@   trusted ranges over the 32767-entry table and calls sort.SliceStable; the comparator is verified separately
-//@   requires dl: dl != nil
+//@   requires dl: dl != nil && dlInv(dl)
 //@   ensures fresh: len(segs) >= 0 && len(segs) <= 32767 && (len(segs) == 0 || fresh(segs))
 //@   ensures members: forall q int :: off(segs) <= q && q < off(segs) + len(segs) ==> contents(segs)[q] != nil && contents(segs)[q].id < 32767 && dl.segments[contents(segs)[q].id] == contents(segs)[q]
+//@   ensures members-ok: forall q int :: off(segs) <= q && q < off(segs) + len(segs) ==> segOK(contents(segs)[q])
 //@   ensures complete: forall i int :: 0 <= i && i < 32767 && dl.segments[i] != nil ==> exists q int :: off(segs) <= q && q < off(segs) + len(segs) && contents(segs)[q] == dl.segments[i]
 //@   ensures [C03] oldest-first: forall q1 int, q2 int :: off(segs) <= q1 && q1 < q2 && q2 < off(segs) + len(segs) ==> contents(segs)[q1].sequenceID <= contents(segs)[q2].sequenceID
 //@   ensures distinct: forall q1 int, q2 int :: off(segs) <= q1 && q1 < q2 && q2 < off(segs) + len(segs) ==> contents(segs)[q1] != contents(segs)[q2]
